@@ -46,6 +46,14 @@ Pendant(v)  == /\ Room /\ phase = 2 /\ v \in Verts(G.n)
                /\ G' = AddVertex(G, {v}) /\ hist' = Append(hist, Op("addvertex", 0, 0, <<v>>)) /\ UNCHANGED <<faces, kind, phase>>
 Isolated    == /\ Room /\ phase = 2
                /\ G' = AddVertex(G, {}) /\ hist' = Append(hist, Op("addvertex", 0, 0, <<>>)) /\ UNCHANGED <<faces, kind, phase>>
+(* a new block: a complete graph on v and k new vertices glued at v.  k = 3 (K4) keeps the kind, k = 4 (K5) makes the graph non-planar *)
+Glue(v, k) == /\ Len(hist) + k <= MaxOps /\ phase = 2 /\ v \in Verts(G.n) /\ k \in {3, 4}
+              /\ LET n == G.n
+                     new == n..(n + k - 1)
+                     ops == [i \in 1..k |-> Op("addvertex", 0, 0, SortedSeq({v} \cup (n..(n + i - 2))))] IN
+                 /\ G' = [n |-> n + k, E |-> G.E \cup { {v, x} : x \in new } \cup { e \in SUBSET new : Cardinality(e) = 2 }]
+                 /\ hist' = hist \o ops
+              /\ kind' = (IF k = 4 THEN "nonplanar" ELSE kind) /\ UNCHANGED <<faces, phase>>
 AddEdgeNP(e) == /\ Room /\ kind = "nonplanar" /\ e \in AllPairs(G.n) \ G.E
                /\ G' = AddEdge(G, Min(e), Max(e)) /\ hist' = Append(hist, Op("addedge", Min(e), Max(e), <<>>)) /\ UNCHANGED <<faces, kind, phase>>
 AddVertexNP(S) == /\ Room /\ kind = "nonplanar" /\ S \subseteq Verts(G.n)
@@ -58,6 +66,7 @@ Next == \/ \E f \in faces : Stellate(f)
         \/ \E e \in G.E : DelEdge(e) \/ Subdivide(e)
         \/ \E v \in Verts(G.n) : Pendant(v)
         \/ Isolated
+        \/ \E v \in Window, k \in {3, 4} : Glue(v, k)
         \/ \E a \in Window, b \in Verts(G.n) : a # b /\ AddEdgeNP({a, b})
         \/ \E a, b, c \in Window : AddVertexNP({a, b, c})               \* 1, 2 or 3 neighbours among a few old and the newest vertices
         \/ AddVertexNP({})
